@@ -114,7 +114,8 @@ class NumericalDerivative(Operator):
 
         self.method, method_in = str(method).lower(), method
         if self.method not in ('backward', 'forward', 'central'):
-            raise ValueError("`method` '{}' not understood").format(method_in)
+            raise ValueError("`method` '{}' not understood"
+                             "".format(method_in))
 
         super(NumericalDerivative, self).__init__(
             operator.domain, operator.range, linear=True)
@@ -233,7 +234,8 @@ class NumericalGradient(Operator):
 
         self.method, method_in = str(method).lower(), method
         if self.method not in ('backward', 'forward', 'central'):
-            raise ValueError("`method` '{}' not understood").format(method_in)
+            raise ValueError("`method` '{}' not understood"
+                             "".format(method_in))
 
         super(NumericalGradient, self).__init__(
             functional.domain, functional.domain, linear=functional.is_linear)
